@@ -167,6 +167,21 @@ PROPS['C17'] = dict(
     level_text='Bounded symbolic model checking (exact-arithmetic reading): the real integrate<n> is run on symbolic splines with the library\'s integrand lambda evaluated at the exact Gauss nodes; the result must equal both the harness\'s exact integral of f*m1*m2 over the common intervals and the real BilinearForm with f as an operator, whenever 2n-1 >= order1+order2+d.',
     level_note='Exact reals with algebraic nodes; quadrature size, orders, weight degree and windows enumerated to the bound; boost tables/rounding not covered; trusted: g++, libz3, sym.h/harness.h, gauss stub, oracle in C17_quadrature.cpp.')
 
+PROPS['C11'] = dict(
+    engine='A', technique='symbolic execution of the real validating entry points with IEEE-comparison scalars (z3 Float64: NaN/+-0/+-inf are solver variables) and real scalars; accept/refuse outcome proved equivalent to the documented predicate on every path',
+    harnesses=[dict(name='C11_validation', src='C11_validation.cpp', chunk=1,
+                    defs=dict(quick=['-DMAXK=5', '-DMAXN=4'], thorough=['-DMAXK=6', '-DMAXN=5']),
+                    functions=['Grid::Grid (vector, iterator, initializer_list, shared_ptr)', 'Grid::checkValidity', 'Grid::isSteadilyIncreasing', 'Support::Support', 'Support::checkValidity',
+                               'Spline::Spline', 'Spline::checkValidity', 'BSplineGenerator(knots)', 'BSplineGenerator(knots, grid)', 'BSplineGenerator::generateGrid (std::unique)',
+                               'BSplineGenerator::generateBSplines<p>', 'linearCombination (argument checks)', 'interpolation::interpolate (argument checks)'])],
+    bounds=dict(quick='grid/knot sequences of 0..5 symbolic elements (IEEE doubles incl. NaN, signed zeros, infinities at solver-chosen positions; and reals), all four Grid constructors; Support index pairs over {0..n+2} and the extremes of size_t on grids of 2..4 points; coefficient counts 0..n+1 for every window; generator orders 0,2,3 and supplied grids with symbolic points; (#coeffs,#splines) in {0..3}^2; interpolate sizes for every window and boundary derivative orders {0..order+2, SIZE_MAX} at either node in every slot, orders 1..4',
+                thorough='sequences of 0..6 elements, grids up to 5 points'),
+    outside='sequences longer than the bound (the scan is a single stateless loop - stated, not proved); the full 64-bit index space of the Support constructor is covered by C13 (Engine B)',
+    assumptions=['IEEE-754 binary64 comparison semantics for the F64 instantiation (z3 FPA theory)', 'exact reals for the Real instantiation'],
+    trusted=A_TRUST + ['symt/symf64.h', 'z3 FPA decision procedure'],
+    level_text='Bounded symbolic model checking of the validators: the element sequence is symbolic, so the position and kind of the defect (NaN, duplicate, +-0 pair, descent, infinity) is chosen by the solver; on each path the accept/refuse outcome must agree with the documented predicate, and every refusal must be the library exception.',
+    level_note='Sequence lengths, index values and counts enumerated to the bound, element values symbolic; trusted: g++, libz3 (FPA, NRA), sym.h/symf64.h/harness.h, oracle in C11_validation.cpp.')
+
 _NOT_BUILT = 'check not built yet in this round (planned, see DESIGN.md section 5)'
 NOT_APPLICABLE = {
     'C16': 'floating-point forward-error bound: bit-precise FP or (1+delta) NRA encodings of even the smallest instance return unknown/timeout on every installed solver (DESIGN.md section 7)',
